@@ -30,6 +30,7 @@ def compositions(n):
 
 
 def cases(tier):
+  yield from multi_cases()
   for c in universe.graph_cases([(1, eg.T21, 'all', 'none')]):
     c['maxlen'] = 3
     yield c
@@ -41,6 +42,96 @@ def cases(tier):
     for c in universe.graph_cases([(3, eg.TTOPO, 'first', 'none')]):
       c['maxlen'] = 2
       yield c
+
+
+MULTI_OPS = [('FULLY_CONNECTED', 'bias'), ('CONV_2D', '1x1'), ('MUL', 'tc'),
+             ('TANH', ''), ('BATCH_MATMUL', 'const')]
+
+
+def multi_cases():
+  for a in MULTI_OPS:
+    for b in MULTI_OPS:
+      yield {'multi': [a, b]}
+
+
+def run_multi(case, res):
+  """Two signatures: calibrate one, resume on the other (both orders)."""
+  L = env.lib()
+  subs = []
+  for i, (t, v) in enumerate(case['multi']):
+    ar = dict(irm.VARIANTS[t])[v]
+    subs.append({'ops': [irm.op(t, v, [0] * ar)], 'exports': [],
+                 'prefix': ['', 'b_'][i], 'key': ['serving_default', 'sig1'][i]})
+  built = irm.build({'subgraphs': subs, 'pool': env.seed() % 4})
+  if built is None:
+    return
+  res['states'] += 1
+  only = case.get('only')
+  recipe = [md.rule('.*', '*', 'SRQ8a')]
+  reads, datas = [], []
+  for si in range(2):
+    data = built.input_data(si, 'mix')
+    _, it = lite.run_signature(built.model, data, built.keys[si])
+    tens = lite.all_tensors(it, si)
+    reads.append({n: (np.float32(np.min(v)), np.float32(np.max(v)))
+                  for n, (v, _) in tens.items()})
+    datas.append(data)
+  consts = {built.tname(s_, t): built.const(s_, t) for (s_, t) in built.g.const}
+  finals = []
+  for order in ((0, 1), (1, 0)):
+    sub = 'multi|order=%d%d' % order
+    if only is not None and only != sub:
+      continue
+    cal = None
+    try:
+      for si in order:
+        snap = copy.deepcopy(cal)
+        new = L.quantizer.Quantizer(built.model, copy.deepcopy(recipe)).calibrate(
+            [copy.deepcopy(datas[si])], built.keys[si], cal)
+        if snap is not None and not _same(cal, snap):
+          res['fails'].append(findings.fail(
+              PROP, 'previous_result_modified', sub, sub, {}, 'multi'))
+        cal = new
+        res['transitions'] += 1
+    except Exception as e:  # pylint: disable=broad-except
+      res['fails'].append(findings.fail(
+          PROP, 'calibrate_raises', f'{sub}: {type(e).__name__}: {e}'[:300],
+          sub, {}, 'multi'))
+      continue
+    res['evals'] += 1
+    res['traces'] += 1
+    res['nontrivial'] += 1
+    res['hashes'].append(_digest(cal))
+    finals.append(cal)
+    for si in range(2):
+      for meta in built.ops[si]:
+        for t in list(meta.ins) + list(meta.outs):
+          if t == -1:
+            continue
+          name = built.tname(si, t)
+          qsv = cal.get(name)
+          if not qsv or 'min' not in qsv:
+            res['fails'].append(findings.fail(
+                PROP, 'missing_stats', f'{sub}: {name} has no statistics after '
+                'both signatures were calibrated', sub, {}, 'multi'))
+            continue
+          if name in consts:
+            c = consts[name]
+            mn = np.asarray(qsv['min']).ravel()
+            ok = (float(mn.min()) == float(c.min()) and
+                  float(np.asarray(qsv['max']).max()) == float(c.max()))
+          else:
+            ok = (float(np.ravel(qsv['min'])[0]) == float(reads[si][name][0]) and
+                  float(np.ravel(qsv['max'])[0]) == float(reads[si][name][1]))
+          if not ok:
+            res['fails'].append(findings.fail(
+                PROP, 'multi_signature_stats', f'{sub}: {name}', sub, {},
+                'multi'))
+  if len(finals) == 2 and not _same(finals[0], finals[1]):
+    res['fails'].append(findings.fail(
+        PROP, 'signature_order_matters', 'multi: calibrating the two '
+        'signatures in the other order gives different statistics',
+        'multi|order=10', {}, 'multi'))
 
 
 def plan(tier, seed):
@@ -133,6 +224,10 @@ def run_case(case, note, skip):
   L = env.lib()
   res = {'evals': 0, 'nontrivial': 0, 'hashes': [], 'fails': [], 'states': 0,
          'transitions': 0, 'traces': 0, 'counts': {}}
+  if case.get('multi'):
+    run_multi(case, res)
+    res['sample'] = {'two_signature_model': case['multi']}
+    return res
   ir = dict(case['ir'])
   ir.setdefault('pool', env.seed() % 4)
   built = irm.build(ir)
@@ -235,6 +330,29 @@ def run_case(case, note, skip):
       if len(ds) > 1:
         res['nontrivial'] += 1
       res['hashes'].append(_digest(full))
+      # a second calibrate() on the same object WITHOUT a previous result
+      # starts from scratch and leaves the first result alone
+      if len(ds) == 2 and (only is None or only == dsub + '|again'):
+        q_ = L.quantizer.Quantizer(built.model, copy.deepcopy(recipe))
+        try:
+          first = q_.calibrate(copy.deepcopy(seq[:1]))
+          snap = copy.deepcopy(first)
+          second = q_.calibrate(copy.deepcopy(seq[1:]))
+          fresh = L.quantizer.Quantizer(
+              built.model, copy.deepcopy(recipe)).calibrate(
+                  copy.deepcopy(seq[1:]))
+          res['evals'] += 1
+          res['transitions'] += 2
+          if not _same(first, snap):
+            fail('previous_result_modified', f'{dsub}|again: the result of the '
+                 'first calibrate() changed during the second', dsub + '|again')
+          if not _same(second, fresh):
+            fail('restart_differs', f'{dsub}|again: calibrate() without a '
+                 'previous result depends on an earlier call on the same '
+                 'Quantizer', dsub + '|again')
+        except Exception as e:  # pylint: disable=broad-except
+          fail('calibrate_raises', f'{dsub}|again: {type(e).__name__}: {e}'[:300],
+               dsub + '|again')
       # every split into resumed sessions
       for parts in compositions(len(ds)):
         if len(parts) == 1:
@@ -244,11 +362,16 @@ def run_case(case, note, skip):
           continue
         cal = None
         ok = True
+        # odd-numbered splits run all sessions on ONE Quantizer object, the
+        # others on a fresh object per session
+        shared_qt = (L.quantizer.Quantizer(built.model, copy.deepcopy(recipe))
+                     if sum(b for _, b in parts) % 2 else None)
         for a, b in parts:
           snap = copy.deepcopy(cal)
           try:
-            new = L.quantizer.Quantizer(
-                built.model, copy.deepcopy(recipe)).calibrate(
+            q_ = shared_qt or L.quantizer.Quantizer(built.model,
+                                                    copy.deepcopy(recipe))
+            new = q_.calibrate(
                     copy.deepcopy(seq[a:b]), previous_calibration_result=cal)
           except Exception as e:  # pylint: disable=broad-except
             fail('calibrate_raises', f'{psub}: {type(e).__name__}: {e}'[:300],
